@@ -269,7 +269,9 @@ def check(a):
     }
     if ev["coverage"]["distinct_nontrivial"] < 2:
         ev["coverage"]["distinct_nontrivial"] = ev["coverage"]["distinct_nontrivial"]  # reported as measured
-    with open(os.path.join(HERE, "evidence", f"{pid}.json"), "w") as f:
+    evdir = os.path.join(HERE, "evidence", "_dev") if _ALT else os.path.join(HERE, "evidence")
+    os.makedirs(evdir, exist_ok=True)
+    with open(os.path.join(evdir, f"{pid}.json"), "w") as f:
         json.dump(ev, f, indent=1, default=str)
     try:
         import shutil
